@@ -159,3 +159,28 @@ def lower_matches(tree):
         _Lower().visit(tree)
         ast.fix_missing_locations(tree)
     return tree
+
+
+class _AnnLower(ast.NodeTransformer):
+    """annotated assignments outside class bodies are the plain assignments they are at run time (`x: int = 1` binds x
+    exactly as `x = 1`; a bare `x: int` binds nothing).  Inside a class body they are kept: there an annotation decides
+    what a dataclass / NamedTuple / TypedDict takes for a field."""
+
+    def visit_ClassDef(self, node):
+        # the class body's own statements stay; functions inside it are lowered
+        for st in node.body:
+            if isinstance(st, (ast.FunctionDef, ast.AsyncFunctionDef, ast.ClassDef)):
+                self.visit(st)
+        return node
+
+    def visit_AnnAssign(self, node):
+        if node.value is None:
+            return ast.copy_location(ast.Pass(), node)
+        new = ast.Assign(targets=[node.target], value=node.value, type_comment=None)
+        return ast.copy_location(new, node)
+
+
+def lower_annotations(tree):
+    _AnnLower().visit(tree)
+    ast.fix_missing_locations(tree)
+    return tree
